@@ -46,6 +46,7 @@ class SpecFn:
     lean: Optional[str] = None     # for prims: Lean name (definition lives in Prim.lean)
     z3def: Optional[Callable] = None
     doc: str = ""
+    group: str = "cfg"    # for abstract functions: which parameter structure they live in (cfg = constants of /repo, env = user objects)
 
 
 class Registry:
@@ -69,19 +70,28 @@ class Registry:
                 out.add(n.func.id)
         return out
 
-    def uses_cfg(self, name, _seen=None) -> bool:
-        """True when the function (transitively) calls an @abstract parameter."""
-        _seen = _seen if _seen is not None else {}
-        if name in _seen:
-            return _seen[name]
-        fn = self.fns[name]
-        if fn.kind == "abstract":
-            _seen[name] = True
-            return True
-        _seen[name] = False
-        r = any(self.uses_cfg(c, _seen) for c in self.callees(fn))
-        _seen[name] = r
-        return r
+    def uses_cfg(self, name, group="cfg") -> bool:
+        """True when the function (transitively) calls an @abstract parameter of the given group."""
+        cache = self.__dict__.setdefault("_uses_cache", {})
+        key = (name, group)
+        if key in cache:
+            return cache[key]
+        # fixpoint over the call graph (handles mutual recursion)
+        seen, stack, found = set(), [name], False
+        while stack:
+            n = stack.pop()
+            if n in seen:
+                continue
+            seen.add(n)
+            fn = self.fns[n]
+            if fn.kind == "abstract":
+                if fn.group == group:
+                    found = True
+                    break
+                continue
+            stack.extend(self.callees(fn))
+        cache[key] = found
+        return found
 
     def sccs(self):
         """Strongly connected components of spec functions in dependency order (Tarjan)."""
@@ -174,8 +184,10 @@ def spec(fn):
     return _mk("spec", fn)
 
 
-def abstract(fn):
+def abstract(fn=None, group="cfg"):
     """Parameter function: body is the *default Python binding* (may be rebound per run)."""
+    if fn is None:
+        return lambda f: _mk("abstract", f, group=group)
     return _mk("abstract", fn)
 
 
